@@ -41,6 +41,8 @@ var allowPrefixes = []string{
 	"github.com/ethereum/go-ethereum/common.TrimLeftZeroes",
 	"github.com/ethereum/go-ethereum/common.TrimRightZeroes",
 	"github.com/tellor-io/",
+	"github.com/cosmos/cosmos-sdk/types.TokensToConsensusPower",
+	"github.com/cosmos/cosmos-sdk/types.TokensFromConsensusPower",
 	"slices.",
 	"sort.Sort",
 	"sort.Stable",
